@@ -1524,13 +1524,13 @@ got_m:
                 e.sf = 1;              // only one will be dequeued, so it'll still have waiters
             }
         }
-        newv = operand->u.s.data + inc;
+        newv = INT64TOINT60(operand->u.s.data + inc);
         UNLOCK_THIS_MODIFIED_SYNCVAR(operand, newv, (e.pf << 1) | e.sf);
         assert(m->FFQ || m->EFQ);      // otherwise there weren't really any waiters
         assert(m->FEQ == NULL);        // someone snuck in!
         qthread_syncvar_gotlock_fill(me->rdata->shepherd_ptr, m, operand, newv);
     } else {
-        newv = operand->u.s.data + inc;
+        newv = INT64TOINT60(operand->u.s.data + inc);
         UNLOCK_THIS_MODIFIED_SYNCVAR(operand, newv, (e.pf << 1) | e.sf);
     }
 
